@@ -46,6 +46,13 @@ def _get_node_text(node: Node) -> str:
     return node.text.decode() if node.text else ""
 
 
+def _skip_comments(node: Node | None) -> Node | None:
+    """Step over comment nodes: a comment between an attribute and its item changes nothing."""
+    while node is not None and node.type in ("line_comment", "block_comment"):
+        node = node.prev_sibling
+    return node
+
+
 def has_test_attribute(function_node: Node) -> bool:
     """Check if a function has #[test] attribute as preceding sibling.
 
@@ -55,13 +62,13 @@ def has_test_attribute(function_node: Node) -> bool:
     Returns:
         True if function has #[test] attribute
     """
-    prev_sibling = function_node.prev_sibling
+    prev_sibling = _skip_comments(function_node.prev_sibling)
     while prev_sibling is not None and prev_sibling.type == "attribute_item":
         text = _get_node_text(prev_sibling)
         # #[cfg(not(test))] marks code that is compiled only OUTSIDE tests
         if "test" in text and "not(test)" not in text.replace(" ", ""):
             return True
-        prev_sibling = prev_sibling.prev_sibling
+        prev_sibling = _skip_comments(prev_sibling.prev_sibling)
     return False
 
 
@@ -74,11 +81,11 @@ def has_cfg_test_attribute(mod_node: Node) -> bool:
     Returns:
         True if module has #[cfg(test)] attribute
     """
-    prev_sibling = mod_node.prev_sibling
+    prev_sibling = _skip_comments(mod_node.prev_sibling)
     while prev_sibling is not None and prev_sibling.type == "attribute_item":
         if "cfg(test)" in _get_node_text(prev_sibling):
             return True
-        prev_sibling = prev_sibling.prev_sibling
+        prev_sibling = _skip_comments(prev_sibling.prev_sibling)
     return False
 
 
